@@ -211,6 +211,7 @@ def operator_suite(chk, w, rule, nmax, orders=(0, 1, 2, 3), cases=None, ns=None,
     # integer scalars of the operator algebra (2 * Dx<1>{}, A / 2) are literal-origin constants, not index
     # quantities: arithmetic with a compile-time constant operand is evaluated exactly
     w.I.allow_const_scaling = True
+    w.I.int_arith_scopes = ("bspline::internal::",)  # faculty / binomial helpers: constant propagation
     names = sorted(cases or OP_CASES)
     for n in _ns(2, nmax, ns):
         grid = w.mk_grid(w.grid_values(n)).v
@@ -319,7 +320,8 @@ def _scalar_ok(o, want_deps):
 
 def bilinear_suite(chk, w, rule, nmax, order_pairs=((1, 1), (2, 1), (0, 3), (2, 2)), ns=None, fixed=True):
     cs = Cases(chk, rule, w)
-    w.I.allow_const_scaling = True  # kernel loop counters are bounded by template constants
+    w.I.allow_const_scaling = True
+    w.I.int_arith_scopes = ("bspline::internal::",)  # faculty / binomial helpers: constant propagation  # kernel loop counters are bounded by template constants
     for n in _ns(2, nmax, ns):
         grid = w.mk_grid(w.grid_values(n)).v
         grid2 = w.mk_grid(w.grid_values(n)).v
@@ -364,7 +366,8 @@ def bilinear_suite(chk, w, rule, nmax, order_pairs=((1, 1), (2, 1), (0, 3), (2, 
 
 def linear_suite(chk, w, rule, nmax, orders=(0, 1, 2, 3), ns=None, fixed=True):
     cs = Cases(chk, rule, w)
-    w.I.allow_const_scaling = True  # kernel loop counters are bounded by template constants
+    w.I.allow_const_scaling = True
+    w.I.int_arith_scopes = ("bspline::internal::",)  # faculty / binomial helpers: constant propagation  # kernel loop counters are bounded by template constants
     for n in _ns(2, nmax, ns):
         grid = w.mk_grid(w.grid_values(n)).v
         for A in orders:
@@ -402,7 +405,8 @@ def linear_suite(chk, w, rule, nmax, orders=(0, 1, 2, 3), ns=None, fixed=True):
 
 def quadrature_suite(chk, w, rule, nmax, order_pairs=((1, 1), (2, 1), (0, 3), (2, 2)), ns=None, fixed=True):
     cs = Cases(chk, rule, w)
-    w.I.allow_const_scaling = True  # kernel loop counters are bounded by template constants
+    w.I.allow_const_scaling = True
+    w.I.int_arith_scopes = ("bspline::internal::",)  # faculty / binomial helpers: constant propagation  # kernel loop counters are bounded by template constants
     for n in _ns(2, nmax, ns):
         grid = w.mk_grid(w.grid_values(n)).v
         for (A, B) in order_pairs:
@@ -426,4 +430,41 @@ def quadrature_suite(chk, w, rule, nmax, order_pairs=((1, 1), (2, 1), (0, 3), (2
                         cs.expect(blame(w, name, f), "%s: the quadrature extends over exactly the common intervals, with both splines' "
                                      "pieces of the same interval and that interval's end points; zero if none" % name,
                                   dict(case=name, orders=(A, B), n=n, a=wa, b=wb), o, ok, "(%s)" % why)
+    return cs.flush()
+
+
+def constant_table_suite(chk, w, rule, nmax=8, ns=None, fixed=True):
+    """Constant propagation through the pure integer->scalar helpers (all callers pass template constants and
+    loop counters bounded by them): faculty(n) = n!, facultyRatio(a, b) = a!/b!, binomialCoefficient(n, k) = C(n, k)."""
+    import math
+    from fractions import Fraction
+    cs = Cases(chk, rule, w)
+    w.I.allow_int_arith = True
+    w.I.allow_const_scaling = True
+    w.I.int_arith_scopes = ("bspline::internal::",)  # faculty / binomial helpers: constant propagation
+    T = w.T
+    # a helper that is no longer instantiated is no longer used by any operator: nothing to decide for it
+    ffac = w.free("bspline::internal::faculty", lambda f: f.decl["rtype"] == T, required=False)
+    frat = w.free("bspline::internal::facultyRatio", lambda f: f.decl["rtype"] == T, required=False)
+    fbin = w.free("bspline::internal::binomialCoefficient", lambda f: f.decl["rtype"] == T, required=False)
+    if ffac is None and frat is None and fbin is None:
+        raise AnalysisBroken("anchor vanished: none of faculty / facultyRatio / binomialCoefficient is instantiated")
+
+    def is_const(o, v):
+        return o.kind == "val" and isinstance(val(o.v), Sc) and val(o.v).v == v and not val(o.v).deps
+
+    for n in range(0, nmax + 1):
+        if ffac is not None:
+            o = w.call(ffac, None, [n])
+            cs.expect(ffac, "faculty(n) = n!", dict(n=n), o, is_const(o, math.factorial(n)), str(math.factorial(n)))
+        for k in range(0, nmax + 1):
+            if frat is not None:
+                o = w.call(frat, None, [n, k])
+                want = Fraction(math.factorial(n), math.factorial(k))
+                cs.expect(frat, "facultyRatio(a, b) = a!/b!", dict(a=n, b=k), o, is_const(o, want), str(want))
+            if fbin is not None:
+                o = w.call(fbin, None, [n, k])
+                want = math.comb(n, k) if k <= n else 0
+                cs.expect(fbin, "binomialCoefficient(n, k) = C(n, k) (0 for k > n)", dict(n=n, k=k), o,
+                          is_const(o, want), str(want))
     return cs.flush()
